@@ -34,9 +34,15 @@ def passiveAgentOrder : Spec :=
 /-- « Qui mangent ? » / « Qui mange ? »: `wos` resets the number of the verb on the dependency side only -/
 def wosPlural : Spec :=
   { subj := some ils, verb := mangerLex, t := .p, comps := [], typ := { int := some "wos".toList } }
-/-- « À qui mange-t-il ? » / AttributeError: `preposition_list` exists on `PhraseFr` only -/
+/-- « À qui mange-t-il ? »: agrees since commit 38d9ad6 (`preposition_list` moved to the shared mixin; before, the
+    dependency notation raised AttributeError) -/
 def woiPrep : Spec :=
   { subj := some il, verb := mangerLex, t := .p, comps := [.pp "à".toList (chat 1)], typ := { int := some "woi".toList } }
+/-- « Où mange-t-il au chat dans le chat ? » / « Où mange-t-il au chat ? »: the constituent notation only looks at the FIRST
+    prepositional phrase of the VP, the dependency notation removes the first one whose preposition qualifies -/
+def wheSecondPP : Spec :=
+  { subj := some il, verb := mangerLex, t := .p, comps := [.pp "à".toList (chat 1), .pp "dans".toList (chat 2)],
+    typ := { int := some "whe".toList } }
 /-- « Il l'a pu manger » / « Il l'a [[pouvoir]] manger »: the dependency side keeps the `cod` of the pronominalized object
     on the verb that becomes the modal, whose participle then has to agree with it -/
 def modalCod : Spec :=
@@ -51,7 +57,8 @@ theorem notations_agree_fr_refuted : ¬ notations_agree_fr := by
 
 theorem disagree_passive_agent_order : realize .phrase passiveAgentOrder ≠ realize .dep passiveAgentOrder := by decide
 theorem disagree_wos_plural : realize .phrase wosPlural ≠ realize .dep wosPlural := by decide
-theorem disagree_woi_crash : realize .dep woiPrep = .error .attributeError ∧ (realize .phrase woiPrep).isOk = true := by decide
+theorem agree_woi_prep : realize .phrase woiPrep = realize .dep woiPrep ∧ (realize .phrase woiPrep).isOk = true := by decide
+theorem disagree_whe_second_pp : realize .phrase wheSecondPP ≠ realize .dep wheSecondPP := by decide
 theorem disagree_modal_cod : realize .phrase modalCod ≠ realize .dep modalCod := by decide
 theorem disagree_other_prep_pronoun : realize .phrase otherPrepPro ≠ realize .dep otherPrepPro := by decide
 
